@@ -28,8 +28,11 @@ fn c(out: &mut Out, g: &str, n: &str, v: u64) {
 
 macro_rules! flags {
     ($out:expr, $T:ident) => {
-        for (name, f) in $T::all().iter_names() {
-            c($out, stringify!($T), name, f.bits() as u64);
+        // every declared name, also names whose bits coincide with another name's
+        for f in <$T as bitflags::Flags>::FLAGS.iter() {
+            if !f.name().is_empty() {
+                c($out, stringify!($T), f.name(), f.value().bits() as u64);
+            }
         }
         c($out, stringify!($T), "@all", $T::all().bits() as u64);
     };
